@@ -87,8 +87,8 @@ CHECKS = {
         "title": "Vesting module account is always exactly backed by its pools",
         "level": "exploration",
         "technique": "stateful property-based testing (rapid state machine over the vesting message grammar); invariant oracle after every message, state-digest comparison for rejected messages",
-        "tests": [T("TestC05", 500, 2500, qshards=2, steps=50)],
-        "rule": "cases = 1-4 generated vesting types (free fraction from a boundary pool, lockup/vesting 0s..3y) + 0-6 seeded pools + a rapid state machine (avg 50 steps) over create-pool / send-to-vesting-account / withdraw-all / create-vesting-account / split / move / move-by-denoms / advance-time (to lock-end-1ns, lock end, +1ns, or by 1ns..1y), arguments drawn relative to the current state (existing and missing pools and types, amount in {0, 1, remainder, remainder+1, -1, random}, recipient in {fresh, existing, self, blocked module}). "
+        "tests": [T("TestC05", 500, 2500, qshards=2, steps=50), T("TestC05Restart", 40, 150, qshards=2, timeout=900)],
+        "rule": "TestC05Restart: generated genesis and 4-14 blocks of signed transactions on the ABCI chain (as C11), the node process restarting (new application instance over the same database) after a block one time in four; module balance == sum over pools after every block and after every restart. TestC05: cases = 1-4 generated vesting types (free fraction from a boundary pool, lockup/vesting 0s..3y) + 0-6 seeded pools + a rapid state machine (avg 50 steps) over create-pool / send-to-vesting-account / withdraw-all / create-vesting-account / split / move / move-by-denoms / advance-time (to lock-end-1ns, lock end, +1ns, or by 1ns..1y), arguments drawn relative to the current state (existing and missing pools and types, amount in {0, 1, remainder, remainder+1, -1, random}, recipient in {fresh, existing, self, blocked module}). "
                 "Non-trivial = history contains an accepted send, a withdrawal that paid after a lock end, and a rejected message. Distinct = SHA-256 of the operation history.",
         "min_nontrivial_fraction": 0.2,
         "min_class_fraction": {"rejected_after_implicit_withdraw": 0.05, "accepted_send": 0.3, "withdraw_paid": 0.3},
@@ -156,10 +156,10 @@ CHECKS = {
         "level": "exploration",
         "technique": "property-based testing (rapid): target-address state x every account-creating message x signer; oracle = byte comparison of every pre-existing x/auth record before and after",
         "tests": [T("TestC09", 2500, 8000, qshards=2)],
-        "rule": "cases = target address state in {absent, base account without key, base account with public key and sequence > 0, continuous vesting account (optionally delegating), module account, the vesting sender itself} x message in {pool send, direct vesting-account creation, split, move, move-by-denoms, cfesignature MsgCreateAccount with secp256k1 / ed25519 / malformed public-key JSON} x signer. cfesignature messages run through the app router (unroutable on this tree) and directly through keeper.NewMsgServerImpl with baseapp's accept/discard rule; a panic counts as rejection here. "
+        "rule": "cases = target address state in {absent, base account without key, base account with public key and sequence > 0, continuous vesting account (optionally delegating), periodic / delayed / permanently locked vesting account of x/auth/vesting, module account, the vesting sender itself}; the vesting sender is not staking, has delegated vesting or has delegated free coins; x message in {pool send, direct vesting-account creation, split, move, move-by-denoms, cfesignature MsgCreateAccount with secp256k1 / ed25519 / malformed public-key JSON} x signer. cfesignature messages run through the app router (unroutable on this tree) and directly through keeper.NewMsgServerImpl with baseapp's accept/discard rule; a panic counts as rejection here. "
                 "Oracle: the proto bytes of every account that existed before are unchanged afterwards, except that an accepted split/move may reduce the sender's own original vesting (all other fields equal). Non-trivial = the target address existed. Distinct = SHA-256 of (target state, message).",
         "min_nontrivial_fraction": 0.5,
-        "min_class_fraction": {"msg_*types.MsgCreateAccount": 0.1, "target_continuous_vesting": 0.08, "target_base_with_key_and_sequence": 0.08, "target_module_account": 0.08},
+        "min_class_fraction": {"msg_*types.MsgCreateAccount": 0.1, "target_continuous_vesting": 0.06, "target_base_with_key_and_sequence": 0.06, "target_module_account": 0.06, "target_periodic_vesting": 0.06, "target_delayed_vesting": 0.06, "target_permanent_locked": 0.06},
         "level_text": "Exhaustive-by-generation product of target states and account-creating messages with a byte-exact before/after oracle over the whole account store.",
         "level_note": "The signature module's Msg service is not registered with the app on this tree (DESIGN §2.6); its handlers are driven directly because the property anchors in them and registering the service is a one-line change.",
         "design_ref": "DESIGN.md §5 C09",
@@ -265,7 +265,7 @@ CHECKS = {
         "technique": "property-based fuzzing (rapid) of all 17 message types and 18 query types with boundary field pools restricted to wire-reachable values; oracle = recover() around ValidateBasic, GetSigners (after a passing ValidateBasic), the registered handler and the query method",
         "tests": [T("TestC20Msgs", 6000, 40000, qshards=2), T("TestC20Queries", 3000, 20000), T("TestC20SigStrings", 2000, 10000), F("FuzzC20VestingStrings"), F("FuzzC15Record")],
         "plain_tests": ["FuzzC20VestingStrings", "FuzzC15Record"],
-        "rule": "messages: one of the 17 Msg types of cfevesting, cfeminter, cfedistributor and cfesignature with every field drawn from its boundary pool - addresses {'', malformed, foreign prefix, 1200 chars, module, vesting, fresh, gov, owner}, Int {absent (nil), 0, -1, 2^255, 2^256-1, 10^30, small}, Dec {absent, 0, -0.1, 2, 1, 10^-18, pct}, strings {'', 1 char, 5000 chars, control characters, valid names}, Coins {absent, empty, nil amount, zero, duplicates, unsorted, negative, bad denom, valid}, durations/times {0, -1, 1, max}, minters with absent / every concrete config and boundary amounts, sub-distributors absent or with arbitrary account types - against 6 states (no pools; pools; a pool whose vesting type is gone; pools past lock end; vesting denomination changed by governance; pools whose coins a governance-installed sub-distributor with the cfevesting module account as source has swept away, before or after lock end). Only wire-reachable values are generated (zero values = omitted fields; no nil entries in repeated fields; every message must survive marshal/unpack with the app codec). "
+        "rule": "messages: one of the 17 Msg types of cfevesting, cfeminter, cfedistributor and cfesignature with every field drawn from its boundary pool - addresses {'', malformed, foreign prefix, 1200 chars, module, vesting, fresh, gov, owner}, Int {absent (nil), 0, -1, 2^255, 2^256-1, 10^30, small}, Dec {absent, 0, -0.1, 2, 1, 10^-18, pct}, strings {'', 1 char, 5000 chars, control characters, valid names}, Coins {absent, empty, nil amount, zero, duplicates, unsorted, negative, bad denom, valid}, durations/times {0, -1, 1, max}, minters with absent / every concrete config and boundary amounts, sub-distributors absent or with arbitrary account types - each one time in four preceded by a well-formed message of another module naming an account the custom modules rely on (cfesignature MsgCreateAccount for a module account or the vesting account, bank transfer to a module address), against 6 states (no pools; pools; a pool whose vesting type is gone; pools past lock end; vesting denomination changed by governance; pools whose coins a governance-installed sub-distributor with the cfevesting module account as source has swept away, before or after lock end). Only wire-reachable values are generated (zero values = omitted fields; no nil entries in repeated fields; every message must survive marshal/unpack with the app codec). "
                 "queries: each of the 18 query methods with the same pools, on 3 states (incl. a traced non-vesting account and stored signature garbage). Non-trivial (messages) = ValidateBasic passed, i.e. the handler ran. Distinct = SHA-256 of (state, message).",
         "min_nontrivial_fraction": 0.3,
         "min_class_fraction": {},
